@@ -297,6 +297,48 @@ func checkC14(p *core.Program, r *core.Report) {
 			return true
 		})
 	}
+	// a shutdown hook that cancels request contexts aborts the requests Shutdown is supposed to wait for
+	for _, fn := range p.RepoFuncs() {
+		for _, b := range fn.Blocks {
+			for _, in := range b.Instrs {
+				c, ok := in.(ssa.CallInstruction)
+				if !ok {
+					continue
+				}
+				callee := c.Common().StaticCallee()
+				if callee == nil || callee.String() != "(*net/http.Server).RegisterOnShutdown" || len(c.Common().Args) != 2 {
+					continue
+				}
+				cancels := false
+				arg := c.Common().Args[1]
+				for {
+					if ct, ok := arg.(*ssa.ChangeType); ok {
+						arg = ct.X
+						continue
+					}
+					break
+				}
+				if isNamed(arg.Type(), "context", "CancelFunc") {
+					cancels = true
+				}
+				if mc, ok := arg.(*ssa.MakeClosure); ok {
+					if cf, ok := mc.Fn.(*ssa.Function); ok {
+						for _, bb := range cf.Blocks {
+							for _, ii := range bb.Instrs {
+								if cc, ok := ii.(*ssa.Call); ok && !cc.Common().IsInvoke() && isNamed(cc.Common().Value.Type(), "context", "CancelFunc") {
+									cancels = true
+								}
+							}
+						}
+					}
+				}
+				if cancels {
+					nClose++
+					r.Violation("O14.1", core.FuncName(fn)+": RegisterOnShutdown(cancel)", p.Pos(c.Pos()), "a context cancel function runs as soon as Shutdown starts: the contexts of the in-flight requests are cancelled while Shutdown is waiting for exactly those requests to finish")
+				}
+			}
+		}
+	}
 	if nClose == 0 {
 		r.OK("O14.1", "repository: (*http.Server).Close is never called", "-", "0 call sites in %d functions", len(ix.all))
 	}
